@@ -446,3 +446,13 @@ Section Refine.
       run K V hash eqb need (new_hashmap K V cap) ops <> None.
   Proof. intros. eapply run_total; eauto. now apply inv_new. Qed.
 End Refine.
+
+(** capacity 0 is rejected by the code: make([]Bucket, 0), and indexFor(h, 0) = h & (2^64-1) = h
+    is outside the empty array for every key (run-time panic) *)
+Lemma hashmap_capacity_zero : forall K V (hash : K -> N) (eqb : K -> K -> bool) (need : nat -> N -> bool) k v,
+    value K V hash eqb (new_hashmap K V 0) k = None /\
+    put K V hash eqb need (new_hashmap K V 0) k v = None.
+Proof.
+  intros. unfold value, put, slot_of, nthN. simpl.
+  destruct (index_for (hash k) 0); split; reflexivity.
+Qed.
